@@ -26,6 +26,11 @@ def canon_outputs(system, y, used_model: dict):
 
 def run(ctx: Ctx):
     import_amisc()
+    run_main(ctx)
+    run_nan_listing(ctx)
+
+
+def run_main(ctx: Ctx):
     from amisc import System
     rng = ctx.rng
     nsys = ctx.pick(30, 400)
@@ -156,3 +161,52 @@ def run(ctx: Ctx):
             ctx.disagree('C07:evaluation-order-not-topological', case, 'is_topological = false', case['call_order'])
         if len(case['call_order']) != ncomp or len(set(case['call_order'])) != ncomp:
             ctx.violate('C07:component-not-called-once', f'components were called in the sequence {case["call_order"]}', case)
+
+
+def run_nan_listing(ctx: Ctx):
+    """a model that returns NaN for some samples must only affect the components that depend on it, whatever the listing order"""
+    from amisc import Component, System, Variable
+    rng = ctx.rng
+    for n in range(ctx.pick(12, 120)):
+        ncomp = rng.randint(2, 4)
+        xv = [Variable(f'x{k}', domain=(0, 1)) for k in range(ncomp)]
+        yv = [Variable(f'y{k}', domain=(-10, 10)) for k in range(ncomp)]
+        deps = [None] + [rng.choice([None, rng.randrange(k)]) for k in range(1, ncomp)]   # optional dependence on an earlier output
+        nan_comp = rng.randrange(ncomp)
+        comps = []
+        for k in range(ncomp):
+            ins = [xv[k]] + ([yv[deps[k]]] if deps[k] is not None else [])
+
+            def model(inputs, _k=k, _d=deps[k], _nan=(k == nan_comp)):
+                x = np.asarray(inputs[f'x{_k}'], dtype=float)
+                out = 2.0 * x + _k + (np.asarray(inputs[f'y{_d}'], dtype=float) if _d is not None else 0.0)
+                ret = {f'y{_k}': np.where(x > 0.5, np.nan, out) if _nan else out}
+                if _nan:
+                    ret[f'w{_k}'] = 3.0 * x           # a second output that stays finite where the first is NaN
+                return ret
+            outs = [yv[k]] + ([Variable(f'w{k}', domain=(-10, 10))] if k == nan_comp else [])
+            comps.append(Component(model, ins, outs, name=f'n{k}', vectorized=True))
+        N = rng.randint(2, 5)
+        x = {f'x{k}': np.array([rng.choice([0.125, 0.25, 0.75, 0.875]) for _ in range(N)]) for k in range(ncomp)}
+        # expected values by direct composition
+        exp = {}
+        for k in range(ncomp):
+            v = 2.0 * x[f'x{k}'] + k + (exp[f'y{deps[k]}'] if deps[k] is not None else 0.0)
+            exp[f'y{k}'] = np.where(x[f'x{k}'] > 0.5, np.nan, v) if k == nan_comp else v
+            if k == nan_comp:
+                exp[f'w{k}'] = 3.0 * x[f'x{k}']
+        case = {'nan_listing': n, 'deps': deps, 'nan_component': nan_comp, 'x': {k: v.tolist() for k, v in x.items()}}
+        ctx.case(case, nontrivial=True, kind='nan-listing')
+        for perm in itertools.permutations(range(ncomp)):
+            system = System(*[comps[i] for i in perm], name=f'nl{n}')
+            try:
+                y = system.predict(x, use_model='best', normalized_inputs=False)
+            except Exception as e:
+                ctx.violate('C07:predict-raises:multi-output-component-with-NaN', f'listing {perm}: {type(e).__name__}: {e} (component n{nan_comp} '
+                            f'returns NaN in its first output and a finite second output)', {**case, 'listing': perm}); break
+            bad = [k for k in exp if not systems.floats_close(y[k], exp[k])]
+            if bad:
+                ctx.violate('C07:nan-of-one-component-blanks-independent-components',
+                            f'listing {perm}: {bad[0]} = {np.asarray(y[bad[0]]).tolist()}, composition in dependency order gives {exp[bad[0]].tolist()} '
+                            f'(only component n{nan_comp} returns NaN, for x{nan_comp} > 0.5)', {**case, 'listing': perm})
+                break
